@@ -148,7 +148,10 @@ class _RecWindowStateBase(State):
             State.process_EventNewObservation(self, event)
 
 
-_ws_ns = _mk_callbacks("state", [c for c in ALL_EVENT_CLASSES])
+# only the subscription the library's State has: after *every* delivered event the
+# environment parses the observer, and a window State cannot be parsed before its
+# first observation
+_ws_ns = _mk_callbacks("state", ["EventNewObservation"])
 RecWindowState = type("RecWindowState", (_RecWindowStateBase,), _ws_ns)
 
 
